@@ -75,9 +75,17 @@ UNITS = [
        note="every constant-time callee real; public point; precomputation as in C06.ecmult_const"),
     # --- hashing over secret data ---
     CT("sha256_write", "sha256.c", "h_ct_sha256_write", ["secp256k1_sha256_write", "secp256k1_sha256_transform", "secp256k1_sha256_transform_impl"],
-       unwind=6, defs=["CT_MAX=256"], closed_by="public len <= 200 (<= 3 direct blocks) unwound; unwinding assertions prove the bound",
-       note="secret: data, state, buffer; public: len, byte counter"),
-    CT("sha256_finalize", "sha256.c", "h_ct_sha256_finalize", ["secp256k1_sha256_finalize", "secp256k1_sha256_write"], unwind=10, defs=["CT_MAX=256"]),
-    CT("hmac", "sha256.c", "h_ct_hmac", ["secp256k1_hmac_sha256_initialize", "secp256k1_hmac_sha256_write", "secp256k1_hmac_sha256_finalize"], unwind=66, defs=["CT_MAX=1024"]),
-    CT("rfc6979", "sha256.c", "h_ct_rfc6979", ["secp256k1_rfc6979_hmac_sha256_initialize", "secp256k1_rfc6979_hmac_sha256_generate"], unwind=66, defs=["CT_MAX=4096"]),
+       unwind=6, defs=["CT_MAX=512"], closed_by="public len <= 200 (<= 3 direct blocks) unwound; unwinding assertions prove the bound",
+       note="secret: data, state, buffer; public: len, byte counter (both symbolic)"),
+    CT("sha256_finalize", "sha256.c", "h_ct_sha256_finalize", ["secp256k1_sha256_finalize", "secp256k1_sha256_write"], unwind=10, defs=["CT_MAX=256"],
+       tier="thorough", timeout=1200, note="secret: state, buffer; public: byte counter (fully symbolic, < 2^60)"),
+    CT("sha256_finalize_res", "sha256.c", "h_ct_sha256_finalize_res", ["secp256k1_sha256_finalize", "secp256k1_sha256_write"], unwind=66, defs=["CT_MAX=256"],
+       bounded="byte counter in 0..63 (all residues mod 64); unbounded unit C06.sha256_finalize is in the thorough tier",
+       note="secret: state, buffer"),
+    CT("hmac", "sha256.c", "h_ct_hmac", ["secp256k1_hmac_sha256_initialize", "secp256k1_hmac_sha256_write", "secp256k1_hmac_sha256_finalize"], unwind=66,
+       note="concrete public key lengths 32 and 100"),
+    CT("rfc6979_64", "sha256.c", "h_ct_rfc6979", ["secp256k1_rfc6979_hmac_sha256_initialize", "secp256k1_rfc6979_hmac_sha256_generate"], unwind=66, defs=["KEYLEN=64", "CT_MAX=8192"],
+       note="64 bytes of key material (ecmult_gen_blind, nonce function without extra data)"),
+    CT("rfc6979_112", "sha256.c", "h_ct_rfc6979", ["secp256k1_rfc6979_hmac_sha256_initialize", "secp256k1_rfc6979_hmac_sha256_generate"], unwind=66, defs=["KEYLEN=112", "CT_MAX=8192"],
+       tier="thorough", note="112 bytes of key material (nonce function with extra data and algo16)"),
 ]
